@@ -537,6 +537,44 @@ impl SurfaceWorld {
                 ctx.call("TxIn::blind_issuances_with_bfs", 0, || i2.blind_issuances_with_bfs(secp(), v1, v2, esk, esk).is_ok());
             }
         }
+        {
+            // an output whose range proof REWINDS for the receiver but was made with parameters this library never uses
+            // (exact value, one bit, other exponents) and a message of any length: unblind must answer, not panic
+            use elements::secp256k1_zkp::{Generator, PedersenCommitment, RangeProof, Tag};
+            let (rsk, esk) = (gen::secret_key(&mut p), gen::secret_key(&mut p));
+            let rpk = elements::secp256k1_zkp::PublicKey::from_secret_key(secp(), &rsk);
+            let (nonce, shared) = Nonce::with_ephemeral_sk(secp(), esk, &rpk);
+            let aid = gen::asset_id(&mut p);
+            let abf = gen::abf(&mut p);
+            let g = Generator::new_blinded(secp(), aid.into_tag(), abf.into_inner());
+            let vbf = gen::vbf(&mut p);
+            let value = 1 + p.below(1 << 40);
+            let comm = PedersenCommitment::new(secp(), value, vbf.into_inner(), g);
+            let (min_value, exp, min_bits) = match p.below(5) {
+                0 => (value, -1, 0),
+                1 => (value - 1, 0, 1),
+                2 => (1, p.below(4) as i32, p.below(40) as u8),
+                3 => (0, 0, 52),
+                _ => (1, 0, 52),
+            };
+            let msg = match p.below(4) {
+                0 => Vec::new(),
+                1 => { let n = p.usize_below(64); p.bytes(n) }
+                2 => elements::RangeProofMessage::new(aid, abf).to_byte_array().to_vec(),
+                _ => { let n = 64 + p.usize_below(64); p.bytes(n) }
+            };
+            let spk = gen::script(&mut p, 40);
+            if let Ok(rp) = RangeProof::new(secp(), min_value, comm, value, vbf.into_inner(), &msg, spk.as_bytes(), shared, exp, min_bits, g) {
+                ctx.probe("crafted_rangeproof");
+                let o = TxOut { asset: Asset::Confidential(g), value: Value::Confidential(comm), nonce, script_pubkey: spk, witness: elements::TxOutWitness { surjection_proof: None, rangeproof: Some(Box::new(rp)) } };
+                if let Some(r) = ctx.call("TxOut::unblind", 0, || o.unblind(secp(), rsk).map(|s| s.value)) {
+                    if r.is_ok() {
+                        ctx.probe("crafted_rangeproof_unblinded");
+                    }
+                }
+                ctx.call("TxOut::minimum_value", 0, || o.minimum_value());
+            }
+        }
         let a = gen::asset_id(&mut p);
         ctx.call("TxOut::new_last_confidential", 0, || {
             let refs: Vec<&TxOutSecrets> = secrets.iter().collect();
